@@ -143,7 +143,13 @@ def one_helper_case(rng, R):
         if which == "optimal_cost_value":
             x = relgen.draw_vars(rng, 1, 4)[0]
             style = rng.choice(["dict", "func", "expr"])
+            if rng.random() < 0.25:
+                # a domain mixing value types (values that cannot be ordered with each other), as a YAML list may
+                x = (x[0], rng.sample(["off", "on", 1, 2, 2.5, "a", 0], len(x[1])))
+                style = rng.choice(["dict", "func"])
             costs = [relgen.draw_value(rng, mag if style != "expr" else "small") for _ in x[1]] if rng.random() < 0.8 else None
+            if costs and len(costs) >= 2 and rng.random() < 0.4:
+                costs[rng.randrange(1, len(costs))] = costs[0]  # tie between two values
             witness.update({"x": x, "costs": costs, "cost_style": style})
             var = build_cost_var(rng, x[0], x[1], costs, style)
             got_val, got_cost = REL.optimal_cost_value(var, mode)
